@@ -17,10 +17,10 @@ const (
 
 // Path relations between input and output for single-output ops.
 const (
-	RelInPlace  = "inplace"  // outFile == ""
-	RelSame     = "same"     // outFile == inFile (identical string)
-	RelNew      = "new"      // outFile does not exist
-	RelExisting = "existing" // outFile exists (old content, non-default mode)
+	RelInPlace   = "inplace"   // outFile == ""
+	RelSame      = "same"      // outFile == inFile (identical string)
+	RelNew       = "new"       // outFile does not exist
+	RelExisting  = "existing"  // outFile exists (old content, non-default mode)
 	RelExisting0 = "existing0" // outFile exists and is empty (the mktemp/touch pattern)
 	// RelExistingLink: outFile is a symbolic link to an existing regular file elsewhere (out/store/current.pdf,
 	// old content): whichever of the two the operation replaces, neither may ever hold a torn state
@@ -34,18 +34,18 @@ const (
 
 // Env is one sandbox laid out for one op config.
 type Env struct {
-	Root   string
-	InDir  string
-	OutDir string
-	Tmp    string
-	In     []string // absolute paths of the copied inputs, in op.Inputs order
-	Aux    []string // absolute paths of auxiliary inputs
-	Out    string   // output path for single-output ops ("" for in-place)
-	Rel    string
-	Dest   string // the path that receives the result (input for in-place)
-	OldOut []byte // previous content of an existing output
+	Root    string
+	InDir   string
+	OutDir  string
+	Tmp     string
+	In      []string // absolute paths of the copied inputs, in op.Inputs order
+	Aux     []string // absolute paths of auxiliary inputs
+	Out     string   // output path for single-output ops ("" for in-place)
+	Rel     string
+	Dest    string // the path that receives the result (input for in-place)
+	OldOut  []byte // previous content of an existing output
 	OutMode os.FileMode
-	Chdir  string // harness must chdir here before Run (RelRelAbs)
+	Chdir   string // harness must chdir here before Run (RelRelAbs)
 	// install family
 	FontDir string
 	CertDir string
